@@ -1,8 +1,228 @@
 import GraafVerif.Driver.Common
 import GraafVerif.Driver.ReprDesc
-/-! Driver handlers for property C01 (ops the harness module `ops/c01.rs` emits). -/
+import GraafVerif.Model.ReprEqHist
+import GraafVerif.Model.ReprEqMxIter
+import GraafVerif.Spec.ReprExec
+/-!
+# Driver handlers for C01
+
+* `repr_obs <desc>` — construction correspondence (seed op).
+* `repr_history <repr> <start> <ops>` — see `harness/src/ops/c01.rs` for the line format.
+  The MODEL side replays the history with `X.step` of `Model/ReprEqHist.lean` and renders the
+  same per-step observations; the ORACLE side (`PROPFAIL`) replays it on a *plain unsorted
+  list of arcs* (`LSpec`, the executable form of `Spec/Repr.lean`'s `(V, A, w)`) and compares
+  the IMPLEMENTATION's observations with it, step by step.
+
+Both sides are instances of one renderer (`View`), so that they can only differ in the
+digraph semantics, not in the formatting.
+-/
 namespace GraafVerif.Driver.H01
-open GraafVerif GraafVerif.Driver
+open GraafVerif GraafVerif.Driver GraafVerif.Repr GraafVerif.ReprSpec
+
+/-- A call of the protocol. -/
+inductive HOp where
+  | add (u v : Nat)
+  | addw (u v : Nat) (w : Int)
+  | rem (u v : Nat)
+  | tog (u v : Nat)
+  deriving Repr, BEq
+
+def HOp.parse : V → Option HOp
+  | .l [.a "add", u, v] => do pure (.add (← V.nat? u) (← V.nat? v))
+  | .l [.a "rem", u, v] => do pure (.rem (← V.nat? u) (← V.nat? v))
+  | .l [.a "tog", u, v] => do pure (.tog (← V.nat? u) (← V.nat? v))
+  | .l [.a "addw", u, v, w] => do pure (.addw (← V.nat? u) (← V.nat? v) (← V.int? w))
+  | _ => none
+
+def HOp.ends : HOp → Nat × Nat
+  | .add u v | .rem u v | .tog u v | .addw u v _ => (u, v)
+
+def outToV : Out → V
+  | .unit => .a "unit"
+  | .bool b => V.ofBool b
+  | .panic => .a "panic"
+
+/-- What the renderer needs of a digraph state (model state or oracle state). -/
+structure View (σ : Type) where
+  weighted : Bool
+  order : σ → Nat
+  verts : σ → List Nat
+  /-- arcs in iteration order, weight `1` for unweighted digraphs -/
+  arcs : σ → List (Nat × Nat × Int)
+  plainArcs : σ → List (Nat × Nat)
+  size : σ → Nat
+  weight : σ → Nat → Nat → Option Int
+  /-- `none` = the representation has no such method -/
+  step : σ → HOp → Option (σ × Out)
+
+def showArc (weighted : Bool) (a : Nat × Nat × Int) : V :=
+  if weighted then .l [V.ofNat a.1, V.ofNat a.2.1, .i a.2.2] else .l [V.ofNat a.1, V.ofNat a.2.1]
+
+def showArcs (weighted : Bool) (as : List (Nat × Nat × Int)) : V := .l (as.map (showArc weighted))
+
+def showW : Option Int → V
+  | none => .a "false"
+  | some w => .i w
+
+def hashP : Nat := 2^61 - 1
+def mix (h x : Nat) : Nat := (h * 1000003 + x) % hashP
+
+/-- The rolling hash of `harness/src/ops/c01.rs::digest`. -/
+def digest (verts : List Nat) (arcs : List (Nat × Nat × Int)) : Nat :=
+  let h := verts.foldl (fun h x => mix h (x + 1)) 7
+  let h := mix h 0
+  arcs.foldl (fun h a => mix (mix (mix h (a.1 + 1)) (a.2.1 + 1)) (a.2.2 + (2:Int)^70).toNat) h
+
+def probeUniverse (d : GDesc) (ops : List HOp) : List Nat :=
+  let m := d.verts.foldl (fun m x => max m (x + 1)) 0
+  let ids := d.verts ++ [m, m + 1] ++ ops.flatMap (fun o => [o.ends.1, o.ends.2])
+  ids.foldl (fun acc v => insertAsc v acc) []
+
+def fullLimit : Nat := 12
+
+def obsFull {σ : Type} (vw : View σ) (s : σ) (uni : List Nat) : List V :=
+  let has := uni.flatMap (fun u => uni.filterMap (fun v =>
+    match vw.weight s u v with
+    | some w => some (showArc vw.weighted (u, v, w))
+    | none => none))
+  [V.ofNat (vw.order s), V.ofNats (vw.verts s), showArcs vw.weighted (vw.arcs s), V.ofNat (vw.size s), .l has]
+
+def obsDigest {σ : Type} (vw : View σ) (s : σ) (probe : Option (Nat × Nat)) : List V :=
+  let verts := vw.verts s
+  let probes := match probe with
+    | some (u, v) => [showW (vw.weight s u v), showW (vw.weight s v u)]
+    | none => []
+  [V.ofNat (vw.order s), V.ofNat verts.length, V.ofNat (vw.size s), V.ofNat (digest verts (vw.arcs s)), .l probes]
+
+def obsFinal {σ : Type} (vw : View σ) (s : σ) : V :=
+  .l ([.a "final", V.ofNat (vw.order s), V.ofNats (vw.verts s), showArcs vw.weighted (vw.arcs s)] ++
+    (if vw.weighted then [V.ofPairs (vw.plainArcs s)] else []))
+
+/-- Replay a history and render one value per step; `none` = an unsupported call. -/
+def simulate {σ : Type} (vw : View σ) (s0 : σ) (ops : List HOp) (uni : List Nat) : Option (σ × List V) :=
+  let full := uni.length ≤ fullLimit
+  let first : V := .l (.a "start" :: (if full then obsFull vw s0 uni else obsDigest vw s0 none))
+  let rec go (s : σ) (ops : List HOp) (acc : List V) : Option (σ × List V) :=
+    match ops with
+    | [] => some (s, (obsFinal vw s :: acc).reverse)
+    | op :: rest =>
+      match vw.step s op with
+      | none => none
+      | some (s', out) =>
+        let o := if full then obsFull vw s' uni else obsDigest vw s' (some op.ends)
+        go s' rest (.l (outToV out :: o) :: acc)
+  go s0 ops [first]
+
+/-! ## Model views -/
+
+def unitArcs (as : List (Nat × Nat)) : List (Nat × Nat × Int) := as.map (fun a => (a.1, a.2, 1))
+def unitW (b : Bool) : Option Int := if b then some 1 else none
+
+def viewAL : View AdjList where
+  weighted := false
+  order := AdjList.order
+  verts := AdjList.vertices
+  arcs := fun d => unitArcs d.arcsIter   -- the literal hand-written iterator (= `arcs`, proved)
+  plainArcs := AdjList.arcsIter
+  size := AdjList.size
+  weight := fun d u v => unitW (d.hasArc u v)
+  step := fun d op => match op with
+    | .add u v => some (d.step (.add u v ()))
+    | .rem u v => some (d.step (.rem u v))
+    | _ => none
+
+def viewAM : View AdjMap where
+  weighted := false
+  order := AdjMap.order
+  verts := AdjMap.vertices
+  arcs := fun d => unitArcs d.arcs
+  plainArcs := AdjMap.arcs
+  size := AdjMap.size
+  weight := fun d u v => unitW (d.hasArc u v)
+  step := fun d op => match op with
+    | .add u v => some (d.step (.add u v ()))
+    | .rem u v => some (d.step (.rem u v))
+    | _ => none
+
+def viewEL : View EdgeList where
+  weighted := false
+  order := EdgeList.order
+  verts := EdgeList.vertices
+  arcs := fun d => unitArcs d.arcs
+  plainArcs := EdgeList.arcs
+  size := EdgeList.size
+  weight := fun d u v => unitW (d.hasArc u v)
+  step := fun d op => match op with
+    | .add u v => some (d.step (.add u v ()))
+    | .rem u v => some (d.step (.rem u v))
+    | _ => none
+
+/-- The matrix is observed through the LITERAL iterator loop (`arcsIter`) and `count_ones` sum
+(`sizePop`) of `Model/ReprEqMxIter.lean`; `Proof/ReprMXIter.lean` proves them equal to the filter
+forms `AdjMatrix.arcs` / `AdjMatrix.size` the theorems speak about. -/
+def viewMX : View AdjMatrix where
+  weighted := false
+  order := AdjMatrix.order
+  verts := AdjMatrix.vertices
+  arcs := fun d => unitArcs d.arcsIter
+  plainArcs := AdjMatrix.arcsIter
+  size := AdjMatrix.sizePop
+  weight := fun d u v => unitW (d.hasArc u v)
+  step := fun d op => match op with
+    | .add u v => some (d.step (.add u v))
+    | .rem u v => some (d.step (.rem u v))
+    | .tog u v => some (d.step (.tog u v))
+    | _ => none
+
+def viewW : View AdjListW where
+  weighted := true
+  order := AdjListW.order
+  verts := AdjListW.vertices
+  arcs := AdjListW.arcsWeighted
+  plainArcs := AdjListW.arcs
+  size := AdjListW.size
+  weight := fun d u v =>
+    -- `has_arc` and `arc_weight` are both observed; the harness flags a disagreement
+    if d.hasArc u v != (d.arcWeight u v).isSome then some (-(2:Int)^63) else d.arcWeight u v
+  step := fun d op => match op with
+    | .addw u v w => some (d.step (.add u v w))
+    | .rem u v => some (d.step (.rem u v))
+    | _ => none
+
+/-! ## The oracle: `LSpec` of `Spec/ReprExec.lean` (a plain, unsorted list of weighted arcs) -/
+
+namespace LSpecD
+open LSpec
+def step (s : LSpec) : HOp → Option (LSpec × Out)
+  | .add u v => if s.weighted then none else some (s.put u v 1)
+  | .addw u v w => if s.weighted then some (s.put u v w) else none
+  | .rem u v => some (s.remove u v)
+  | .tog u v => if !s.hasTog then none else some (s.toggle u v)
+def sortedVerts (s : LSpec) : List Nat := s.verts.mergeSort (fun a b => decide (a ≤ b))
+def arcLe (a b : Nat × Nat × Int) : Bool := a.1 < b.1 || (a.1 == b.1 && a.2.1 ≤ b.2.1)
+def sortedArcs (s : LSpec) : List (Nat × Nat × Int) := s.arcs.mergeSort arcLe
+/-- The start state a description denotes: its vertex list and its arcs added in order. -/
+def ofDesc (d : GDesc) : Option LSpec :=
+  let w := d.repr == "wu" || d.repr == "wi"
+  let s0 : LSpec := ⟨d.repr != "am", w, d.repr == "mx", d.verts, []⟩
+  if d.order == 0 && d.repr != "am" then none
+  else d.warcs.foldlM (fun s a =>
+    match s.put a.1 a.2.1 a.2.2 with
+    | (_, .panic) => none
+    | (s', _) => some s') s0
+end LSpecD
+
+def viewSpec (weighted : Bool) : View LSpec where
+  weighted := weighted
+  order := fun s => s.verts.length
+  verts := LSpecD.sortedVerts
+  arcs := LSpecD.sortedArcs
+  plainArcs := fun s => (LSpecD.sortedArcs s).map (fun a => (a.1, a.2.1))
+  size := fun s => s.arcs.length
+  weight := LSpec.weight
+  step := LSpecD.step
+
+/-! ## Handlers -/
 
 /-- `repr_obs <desc>`: build through the public API, observe order / vertices / arcs. -/
 def hObs : Handler := fun _ args obs =>
@@ -15,6 +235,79 @@ def hObs : Handler := fun _ args obs =>
     pure (classify obs model none (nt := d.arcs.length ≥ 2) [d.repr, sizeTag d.order])
   | _ => none
 
-def handlers : List (String × Handler) := [("repr_obs", hObs)]
+/-- Model replay for the representation named by the description. -/
+def modelRun (d : GDesc) (ops : List HOp) (uni : List Nat) : Option (Option (List V)) :=
+  match d.repr with
+  | "al" => some ((buildAL d).bind (fun g => (simulate viewAL g ops uni).map (·.2)))
+  | "am" => some ((buildAM d).bind (fun g => (simulate viewAM g ops uni).map (·.2)))
+  | "mx" => some ((buildMX d).bind (fun g => (simulate viewMX g ops uni).map (·.2)))
+  | "el" => some ((buildEL d).bind (fun g => (simulate viewEL g ops uni).map (·.2)))
+  | "wu" | "wi" => some ((buildW d).bind (fun g => (simulate viewW g ops uni).map (·.2)))
+  | _ => none
+
+/-- First position where two renderings differ. -/
+def firstDiff (got want : List V) : Option String :=
+  let rec go (i : Nat) : List V → List V → Option String
+    | [], [] => none
+    | g :: gs, w :: ws => if g == w then go (i + 1) gs ws else
+        some s!"step {i}: spec-says {(toString w).take 300} impl-gave {(toString g).take 300}"
+    | [], w :: _ => some s!"step {i}: missing, spec-says {(toString w).take 300}"
+    | g :: _, [] => some s!"step {i}: extra {(toString g).take 300}"
+  go 0 got want
+
+def supported (repr : String) : HOp → Bool
+  | .add .. => repr == "al" || repr == "am" || repr == "mx" || repr == "el"
+  | .addw .. => repr == "wu" || repr == "wi"
+  | .rem .. => true
+  | .tog .. => repr == "mx"
+
+def hHistory : Handler := fun _ args obs =>
+  match args with
+  | [.a repr, start, ops] => do
+    let d ← GDesc.parse start
+    if d.repr != repr then none
+    let ops ← V.listOf? HOp.parse ops
+    if !(ops.all (supported repr)) then none
+    let uni := probeUniverse d ops
+    let model ← modelRun d ops uni
+    let modelOut := model.getD [V.a "panic"]
+    -- oracle on the implementation's observations
+    let spec0 := LSpecD.ofDesc d
+    let want : List V := match spec0 with
+      | none => [V.a "panic"]
+      | some s0 => match simulate (viewSpec s0.weighted) s0 ops uni with
+        | some (_, vs) => vs
+        | none => [V.a "unsupported"]
+    let propFail := firstDiff obs want
+    -- tags: what happened in this history (from the oracle run)
+    let outs : List Out := match spec0 with
+      | none => []
+      | some s0 => (ops.foldl (fun (acc : LSpec × List (Out × Bool)) op =>
+          match LSpecD.step acc.1 op with
+          | some (s', o) => (s', (o, acc.1.has op.ends.1 op.ends.2) :: acc.2)
+          | none => acc) (s0, [])).2.map (·.1)
+    let pres : List (HOp × Out × Bool) := match spec0 with
+      | none => []
+      | some s0 => (ops.foldl (fun (acc : LSpec × List (HOp × Out × Bool)) op =>
+          match LSpecD.step acc.1 op with
+          | some (s', o) => (s', (op, o, acc.1.has op.ends.1 op.ends.2) :: acc.2)
+          | none => acc) (s0, [])).2
+    let anyP (p : HOp × Out × Bool → Bool) : Bool := pres.any p
+    let isAdd : HOp → Bool := fun o => match o with | .add .. | .addw .. => true | _ => false
+    let isTog : HOp → Bool := fun o => match o with | .tog .. => true | _ => false
+    let tags := [repr, if uni.length ≤ fullLimit then "full" else "digest", sizeTag d.order,
+      s!"len{if ops.length == 0 then "0" else if ops.length ≤ 4 then "1-4" else if ops.length ≤ 20 then "5-20" else "21-60"}"]
+      ++ (if outs.contains .panic then ["has-panic"] else [])
+      ++ (if outs.contains (.bool true) then ["has-rem-true"] else [])
+      ++ (if outs.contains (.bool false) then ["has-rem-false"] else [])
+      ++ (if anyP (fun (o, r, pre) => isAdd o && r == .unit && pre) then ["has-readd"] else [])
+      ++ (if anyP (fun (o, r, pre) => isTog o && r == .unit && pre) then ["has-tog-off"] else [])
+      ++ (if anyP (fun (o, r, pre) => isTog o && r == .unit && !pre) then ["has-tog-on"] else [])
+      ++ (if d.arcs.isEmpty then ["start-empty"] else ["start-desc"])
+    let changed := anyP (fun (o, r, pre) => (isAdd o && r == .unit && !pre) || r == .bool true || (isTog o && r == .unit))
+    pure (classify obs modelOut propFail (nt := ops.length ≥ 2 && changed) tags)
+  | _ => none
+
+def handlers : List (String × Handler) := [("repr_obs", hObs), ("repr_history", hHistory)]
 
 end GraafVerif.Driver.H01
